@@ -76,10 +76,24 @@ SCENARIO_CAP = {"quick": 40, "thorough": 3000}
 
 
 def instances(tier, seed):
+    for inst in _instances(tier, seed):
+        inst["seed"] = seed
+        yield inst
+
+
+def _instances(tier, seed):
     for i, sc in enumerate(SCENARIOS):
         # N + 1: every scenario also has one isolated vertex (joint degree all zeros)
         yield {"kind": "scenario", "index": i, "name": sc[0], "tset": sc[1], "N": sc[2] + 1,
                "placement": [[k, list(vs)] for k, vs in sc[3]]}
+    for name in CUSTOM_STATES:
+        yield {"kind": "scenario", "index": -1, "name": name, "tset": "custom:" + name, "N": 0, "placement": []}
+    # the same scenario networks with list-valued vertex annotations (a joint degree stored as a list is as valid an
+    # annotation as a tuple; the library itself produced lists before commit 8e8ac93)
+    for i in (0, 2):
+        sc = SCENARIOS[i]
+        yield {"kind": "scenario", "index": i, "name": sc[0] + " (list annotations)", "tset": sc[1], "N": sc[2] + 1,
+               "placement": [[k, list(vs)] for k, vs in sc[3]], "annotations": "list"}
     for tset, N, minm, maxm in PLAN[tier]:
         tops = netgen.TOPOLOGY_SETS[tset]
         batch = []
@@ -95,7 +109,37 @@ def instances(tier, seed):
             yield {"kind": "box", "tset": tset, "N": N, "placements": batch}
 
 
+def orbit_labelled_diamonds():
+    """Two diamonds whose five edges carry TWO topology names (four 'rim' edges, one 'chord': orbit-labelled motifs,
+    as the custom-motif generator produces them), decorated with pendant 2-cliques, plus one isolated vertex.
+    A vertex's joint degree counts, per topology name, the motifs in which it has an edge of that name."""
+    names = ["2-clique", "rim", "chord"]
+
+    def diamond(a, b, c, d):
+        return [((b, c), "chord")] + [(e, "rim") for e in [(a, b), (a, c), (d, b), (d, c)]]
+    motifs = [diamond(0, 1, 2, 3), diamond(5, 4, 6, 7)]
+    nxt = 8
+    for v, k in {1: 1, 2: 2, 3: 3, 4: 2, 5: 4, 7: 1}.items():
+        for _ in range(k):
+            motifs.append([((v, nxt), "2-clique")])
+            nxt += 1
+    nodes = []
+    for n in range(nxt + 1):
+        jd = [0, 0, 0]
+        for es in motifs:
+            for top in {t for e, t in es if n in e}:
+                jd[names.index(top)] += 1
+        nodes.append((n, tuple(jd)))
+    edges = [(min(a, b), max(a, b), top, mid) for mid, es in enumerate(motifs) for (a, b), top in es]
+    return (tuple(nodes), tuple(sorted(edges))), names
+
+
+CUSTOM_STATES = {"orbit-labelled-diamonds": orbit_labelled_diamonds}
+
+
 def initial_state(tset, N, placement):
+    if tset.startswith("custom:"):
+        return CUSTOM_STATES[tset.split(":", 1)[1]]()
     tops = netgen.TOPOLOGY_SETS[tset]
     pl = [(k, tuple(vs), netgen.motif_edges(tops[k][2], vs)) for k, vs in placement]
     net, jds, rows = netgen.build_network(N, tops, pl)
@@ -160,7 +204,11 @@ def run_scenario(inst, tier):
     state, names = initial_state(inst["tset"], inst["N"], inst["placement"])
     target = mcmc.make_target(state, names, "uniform")
     d = 0
-    seen, graph, problems, stats = mcmc.closure(state, names, target, d, cap=SCENARIO_CAP[tier])
+    mcmc.ANNOTATION_TYPE[0] = list if inst.get("annotations") == "list" else tuple
+    try:
+        seen, graph, problems, stats = mcmc.closure(state, names, target, d, cap=SCENARIO_CAP[tier])
+    finally:
+        mcmc.ANNOTATION_TYPE[0] = tuple
     res.executions += stats["leaves"]
     res.states += len(graph)
     res.transitions += stats["transitions"]
@@ -175,13 +223,27 @@ def run_scenario(inst, tier):
         if pprop == "C11":
             res.violation(key, f"scenario {inst['name']} motifs={inst['placement']} after accepted swaps {hist} then "
                           f"draws {choices}: {msg}", desc, history=hist, choices=choices)
+    # the same initial network inserted in other orders (adjacency order is not part of the canonical state)
+    if not [p for p in problems if p[1] != mcmc.KNOWN_CROSSED]:
+        for order in ("reversed", 1 + inst.get("seed", 0)):
+            mcmc.EDGE_ORDER[0] = order
+            try:
+                ro = mcmc.explore_step(state, state, mcmc.motif_shapes(state), names, target, 0)
+            finally:
+                mcmc.EDGE_ORDER[0] = None
+            res.executions += ro.leaves
+            res.revalidated += ro.rechecked
+            report(res, desc, ro.problems, "C11", f"edge insertion order {order!r} ")
+            if set(ro.successors) != set(graph.get(state, [])):
+                res.count("scenarios_whose_successor_set_depends_on_insertion_order")
     if len(seen) >= 2:
         res.nontrivial.add(inst["name"])
         res.flags.add("has-successor")
         res.flags.add("scenario-closure>=2")
     if len(seen) >= 10:
         res.flags.add("closure>=10")
-    if any(k == 1 for k, _ in inst["placement"]) and len(seen) >= 2 and inst["tset"] != "blue+red":
+    if (any(k == 1 for k, _ in inst["placement"]) or inst["tset"].startswith("custom:")) and len(seen) >= 2 \
+            and inst["tset"] != "blue+red":
         res.flags.add("multi-edge-motif-swapped")
     if all(p[1] == mcmc.KNOWN_CROSSED for p in problems) and tier == "thorough":
         r = mcmc.explore_step(state, state, mcmc.motif_shapes(state), names, target, 1)
